@@ -512,8 +512,8 @@ PROPS['C20'] = {
                  'Suiron.C20.as_query_argument', 'Suiron.C20.C20_token'],
     'oracles': ['C20'],
     'suites': {
-        'quick': parse_runs('C20', [('contexts', 6000, None), ('contexts', 6000, None), ('mutate', 3000, None)]),
-        'thorough': parse_runs('C20', [('contexts', 200000, None) for i in range(6)] + [('mutate', 100000, None)]),
+        'quick': parse_runs('C20', [('contexts', 6000, None), ('contexts', 6000, None), ('mutate', 3000, None), ('ctxstrings', 4, 2)]),
+        'thorough': parse_runs('C20', [('contexts', 200000, None) for i in range(6)] + [('mutate', 100000, None), ('ctxstrings', 5, 8)]),
     },
     'rule': "contexts stream: a term text (random canonical term of depth <= 2, or one of 60 special spellings: signed numbers, digit strings with blanks inside, signs "
             "alone, `1e5`, `3.`, `.5`, i64 extremes, odd variable names, escaped commas, quoted numbers, arithmetic infix) is parsed alone, as `f(T)`, as `[T]`, as `T = x` "
@@ -565,7 +565,7 @@ LEVEL_TEXT = {
            'implementation, with the model parser and printer compared on every case. Nested parenthesised groups are generated since repair D18 (former finding F2).',
     'C20': 'PARTIAL proof: for every token text (no blanks, none of [ ] ( ) , " \\ |: atoms, signed numbers, variables, $_) all five contexts - alone, argument, list element, '
            'infix operand, query argument - are proved to hand the text to the same make_term with the same classification flags, so they yield the same term, for every '
-           'fuel. Structured texts are decided by the contexts stream. One open known finding (F3: arithmetic infix as an argument).',
+           'fuel. Structured texts are decided by the contexts stream (random canonical terms, 90 special spellings, and ALL strings up to length 4 / 5 over the 12 characters the scanners treat specially, each in eight contexts). Stating the structured version exposed and led to the repair of D19-D22. Open known findings: F3 (arithmetic infix as an argument), F4 (quotes and backslashes below the top level of a text).',
     'C21': 'Proved in Lean on the reader model, with the rule parser as a parameter: a file is rejected or its knowledge base is exactly parse_rule of each separated rule text, '
            'in order; the separation returns exactly the rule texts of a concatenation (decimal points, periods inside brackets and quotes never end a rule); the joined text '
            'is the stripped non-empty lines with one blank after every unfinished line; a line (indentation, piece, blanks, optional # / % / // comment) is stripped to '
